@@ -76,6 +76,16 @@ CLAIMED.update({
         note="SQLite answers, interpreter hash randomisation and the feature regexes are exercised only: sequences of programs through ONE parser/taxonomy compared with fresh instances and with the model's state observables; sub-collections; two collect runs in subprocesses with different PYTHONHASHSEED must be byte-identical.",
         technique="Lean 4 invariant + refinement proofs over operation sequences + state-observable correspondence",
         ref="DESIGN.md §5 C03"),
+    "C12": dict(
+        text="Proof: centrifugate_hints / collect_hints (HintBuffers, LIFO closing, deterministic ties) / remove_hints / get_program (marker normalisation line by line, blank ends trimmed) and the parser glue that applies scheduled additions and deletions are modelled on character lists (the fixed regexes hand-transcribed and validated token-level bounded-exhaustively). C12_roundtrip: for every hygienic, properly nested, tie-free decoration of any program — any tolerated marker spelling, blank lines anywhere — get_program returns the hint-free source and exactly the scheduled additions/deletions; C12_marker_tolerance; C12_malformed (unmatched or malformed marks give ValueError, unconditionally); C12_error_classes; C12_deletion_exact / C12_sql_stage_exact / C12_deletion_untouched (a deletion consumes exactly one occurrence with exactly that range; other labels untouched). Models mirror fixes 2658798 6e3c01a ed8d017 c3bf9c5 c744e6b 069b3bf 005102e.",
+        note="Hypothesis noTie is genuinely needed (C12_roundtrip_needs_noTie). Labels derived by the SQL queries go through an oracle recorded from the real run (exercised end-to-end, not proved). A text made only of isolated hints raises IndexError (mirrored; judged outside the property).",
+        technique="Lean 4 proofs over a character-level model (round trip by induction over decorated lines, LIFO nesting) + bounded-exhaustive regex/layout validation + end-to-end correspondence with recorded engine answers",
+        ref="DESIGN.md §5 C12"),
+    "C02": dict(
+        text="Proof (partial): C02_hint_spans (for every text without the separators 0x1c-0x1f, every span scheduled by a hint lies within 1..lineCount of the STORED source), C02_hint_spans_centrifugated, C02_error_span (the ast_construction error label spans 1..lineCount), C02_binding_span (a computed span is the pair of lines of the captured POS), C02_validSpanB_iff. Everything else in the property — the 171 other features, SQL-derived spans, CPython's line numbers, exactly one meta/program — is MONITORED: tag and collect are run under both cleanup strategies on generated and corpus programs and 1 <= start <= end <= nlines is evaluated on every printed/stored span.",
+        note="Open findings printed as KNOWN-FINDING: F10 (a lone `pass`/`import` has no meta/program), F07d (a 0x1c-0x1f separator before a hint on the first/last line). Models mirror fixes 2658798 c744e6b 069b3bf 57ac228 d0d94f6.",
+        technique="Lean 4 proofs for hint, error and binding spans + property monitoring of every span through tag/collect",
+        ref="DESIGN.md §5 C02"),
 })
 PENDING_REASON = "not claimed yet: model/theorems/correspondence for this property are still under construction (see DESIGN.md §5/§9)"
 
